@@ -792,6 +792,30 @@ func runC02(c *Ctx) {
 			c.info("C02-R7", "cmd/glyph#body-methods", token.NoPos, "request-method tests not found in both handlers")
 		}
 	}
+	// a route's result is what a return statement carried: the compiled body ends in HALT on an empty stack (null) when
+	// no `>` ran, so the interpreter must not answer with the value of the last statement it happened to execute
+	if xr := c.fn(interpPkg, "Interpreter.ExecuteRoute"); xr != nil {
+		n := 0
+		eachInstr(xr, func(_ *ssa.BasicBlock, _ int, ins ssa.Instruction) {
+			call, ok := ins.(*ssa.Call)
+			if !ok || callName(call) != interpPath+".Interpreter.executeStatements" {
+				return
+			}
+			n++
+			used := false
+			for _, v := range extractOf(call, 0) {
+				for _, r := range refs(v) {
+					if _, dbg := r.(*ssa.DebugRef); !dbg {
+						used = true
+					}
+				}
+			}
+			c.ob("C02-R7", fnKey(xr)+"#result-only-from-a-return-statement", call.Pos(), !used, "ExecuteRoute uses the value of the last executed statement as the route's result when no return ran: `$ secret = \"s3cr3t\"` as the last line of a route answers with the secret interpreted and with null compiled")
+		})
+		if n == 0 {
+			c.info("C02-R7", fnKey(xr)+"#no-executeStatements", xr.Pos(), "ExecuteRoute does not run the body through executeStatements")
+		}
+	}
 	// both handlers bind the same projection of a header that was sent on several lines
 	{
 		proj := func(root *ssa.Function) (map[string]bool, int) {
